@@ -136,24 +136,25 @@ check("C19", "exploration",
 
 # ---- session 3: what was added to each check (appended to the claim text; DESIGN.md 8.5 has the details) ----
 ADDITIONS = {
- "C01": "Added in session 3: marker paths sharing a plain upper-case prefix (/A/x-@m, /A/y-@m); host-focus universe with a second rule on the longer host pattern and the same dynamic host in another casing (10 rules). Count thresholds: routers holding 60 / 130 rules that differ in ONE trigger dimension (static / dynamic host, static / dynamic path, ip range, method, header value, date range), every rule's own request judged by the flat predicate, cold and warmed; repeated constraints (same ip range / method twice); IPv6 range, single address, range + negation; IPv4-mapped client address.",
+ "C01": "Added in session 3: marker paths sharing a plain upper-case prefix (/A/x-@m, /A/y-@m); host-focus universe with a second rule on the longer host pattern and the same dynamic host in another casing (10 rules). Count thresholds: routers holding 60 / 130 rules that differ in ONE trigger dimension (static / dynamic host, static / dynamic path, ip range, method, header value, date range), every rule's own request judged by the flat predicate, cold and warmed; repeated constraints (same ip range / method twice); IPv6 range, single address, range + negation; IPv4-mapped client address. After round 5: a date window whose bounds are written with UTC offsets (+02:00 / -05:00).",
  "C02": "Added in session 3: r12 (a header condition shared with r5 inside ONE header matcher) and r13 (host \"\" = any host); 15 variants / 13 ids. Later in session 3: r14 (the same ip constraint / method twice), r15 (header pattern with an upper-case literal), r16 / r17 (two rules on one dynamic host under a scheme of their own), r18 (a two-condition date group sharing with two other groups): 21 variants / 19 ids; change-sets that delete an id and bring a version of it.",
- "C03": "Added in session 3: the six context-loss signatures are fixed in /repo (856299d) and suppress nothing any more; a curated body with end tags that close nothing inside a buffered target; bodies that are NOT valid UTF-8 (one 0xFF at every 5th / every position of 3 / 8 curated documents x 4 filter lists): the by-design divergence of the error fallback is one open finding, any loss / duplication / permutation of bytes on such a body has its own signature. Size thresholds: generated documents with one long run (4 KiB .. 512 KiB, thorough 2 MiB) inside each of 11 constructs x 4 filter lists, one chunk vs strides 1 000 .. 100 000 and single cuts around the run.",
- "C04": "Added in session 3: size thresholds - the generated documents with one long run (4 KiB .. 512 KiB, thorough 2 MiB) inside each of 11 constructs x 4 filter lists under one chunk, six strides and cuts around the run: conservation relation on every output; a curated body with end tags that close nothing inside a buffered target.",
- "C05": "Added in session 3: controls are the full product reset x stop x sampling{none,0,100} (12), a payload overriding one header shared by all rules, unit ids on every rule and filter; every case is also built and observed with a UnitTrace handed to every call (same action JSON, same effects, trace rule ids == applied ids). Code lists written unsorted ([500, 404], also excluded); get_final_status_code_with_fallback against the reference; the same Action object used for one response code and then asked about another.",
- "C06": "Added in session 3: requests at instants 400 us / 1 ns before and 999.6 ms / 1 s - 1 ns after every probe instant (the probe space puts its instants ON the window boundaries); rules whose target / header / body values have blank edges, are empty or contain control characters. 130 / 1 100 filler headers before the probe's own; the used action is continued for four codes after the hand-off.",
- "C07": "Added in session 3: marker expressions with named / unnamed groups of their own that accept the baseline values. Date edges (+10000, -0001, +262142 ...) with a rule that has a request_time variable and no date trigger (found a genuine defect, fixed a779549); logger-installing cases in a worker process of their own, both orders of the two initialisers (found a genuine defect, fixed f99fff9); 4 KiB chunks for big bodies.",
- "C08": "Added in session 3: twin-tree interleavings - two trees differing only in ignore_case hold the same pattern and run the script insert, find, cache, find; all 70 interleavings x 27 patterns x {multi, unique}, each on a thread of its own; every find must equal the linear scan of its own tree (detects per-thread / process-wide memoisation keyed without the case mode). 'nested' set explored insert-only (every insertion order of every subset, depth 6 / 7), 'wide' set (a node with 11 children prefilled), 'case-folding' set (letters with more than two case forms).",
- "C09": "Added in session 3: a non-ASCII parameter name and a parameter sorting after the marketing keys. Prefix-related parameter names (a / a2); every URL with <=1 parameter also as a rule that declares an unused marker.",
- "C10": "Added in session 3: transformers that cannot be built (unknown type, replace / slice without options) inside chains and in a variable's chain; references directly followed by a name character (@a_s, @y9, @xs). A marker name with upper-case letters, expressions containing a quote / a named group of their own, an unrelated header before the one a pattern looks at.",
- "C12": "Added in session 3: heavy-pattern pass (never-warmed vs warmed tree / router on expressions whose compiled program is large) and twin-router interleavings (two routers differing only in ignore_path_and_query_case, same marker rules, all 70 interleavings of insert / match / cache / match, each on its own thread, every answer compared with the router's own configuration). 'wide' tree configuration; warmed tree states are compared with the linear scan; r15 in the quick router set.",
- "C13": "Added in session 3: second universe with prefix-related names (X, X-Y, x-y-z), filters with and without unit id / production target hash; Action::filter_headers also with a UnitTrace. Third universe: names of equal length differing in one non-letter byte by bit 5 (X~Y / X^Y).",
- "C14": "Added in session 3: hand-built zlib streams declaring windows of 2^9 / 2^12 / 2^14 bytes, a gzip member with FEXTRA / FNAME / FCOMMENT; filter lists replace_text and a buffering two-stage HTML list. Filter list with an HTML stage before replace_text.",
- "C15": "Added in session 3: 2-4 sibling occurrences of the target for ALL three edits (found a genuine defect, fixed in /repo 586fa08); non-void self-closing fillers, raw-text fillers with white space in the end tag, the legacy script guard; two unparsable selectors. Size thresholds: the generated documents with one long run, exact expected output in one chunk; an upper-case twin of the element the selector looks for.",
- "C16": "Added in session 3: run-length sweep - 23 constructs x 18 fillers x every run length 1..80 (quick) / 1..300 (thorough), in the document and in a raw-text context. Composite tokens reaching the deep script sub-states within the quick bound, byte order mark, <svg> / </svg>.",
+ "C03": "Added in session 3: the six context-loss signatures are fixed in /repo (856299d) and suppress nothing any more; a curated body with end tags that close nothing inside a buffered target; bodies that are NOT valid UTF-8 (one 0xFF at every 5th / every position of 3 / 8 curated documents x 4 filter lists): the by-design divergence of the error fallback is one open finding, any loss / duplication / permutation of bytes on such a body has its own signature. Size thresholds: generated documents with one long run (4 KiB .. 512 KiB, thorough 2 MiB) inside each of 11 constructs x 4 filter lists, one chunk vs strides 1 000 .. 100 000 and single cuts around the run. After round 5: curated bodies with processing instructions / bogus comments containing a tag of the filter's path, raw-text end tags in upper / mixed case, <plaintext> inside a target, BOM + SVG; two filter lists with an unparsable css_selector.",
+ "C04": "Added in session 3: size thresholds - the generated documents with one long run (4 KiB .. 512 KiB, thorough 2 MiB) inside each of 11 constructs x 4 filter lists under one chunk, six strides and cuts around the run: conservation relation on every output; a curated body with end tags that close nothing inside a buffered target. After round 5: the same curated bodies and unparsable-selector lists as C03 (conservation relation on every output).",
+ "C05": "Added in session 3: controls are the full product reset x stop x sampling{none,0,100} (12), a payload overriding one header shared by all rules, unit ids on every rule and filter; every case is also built and observed with a UnitTrace handed to every call (same action JSON, same effects, trace rule ids == applied ids). Code lists written unsorted ([500, 404], also excluded); get_final_status_code_with_fallback against the reference; the same Action object used for one response code and then asked about another. After round 5: long lists (70 / 130 / 260 rules) whose ids mix numeric and non-numeric strings.",
+ "C06": "Added in session 3: requests at instants 400 us / 1 ns before and 999.6 ms / 1 s - 1 ns after every probe instant (the probe space puts its instants ON the window boundaries); rules whose target / header / body values have blank edges, are empty or contain control characters. 130 / 1 100 filler headers before the probe's own; the used action is continued for four codes after the hand-off. After round 5: a request without authority but with a Host header naming a host some rules are bound to.",
+ "C07": "Added in session 3: marker expressions with named / unnamed groups of their own that accept the baseline values. Date edges (+10000, -0001, +262142 ...) with a rule that has a request_time variable and no date trigger (found a genuine defect, fixed a779549); logger-installing cases in a worker process of their own, both orders of the two initialisers (found a genuine defect, fixed f99fff9); 4 KiB chunks for big bodies. After round 5: every single-deviation case and every pointer pattern runs a second time in a worker whose log records go to a C callback (redirectionio_log_init_with_callback; the receiver releases each message); a many-matched-rules family (8 / 24 / 70 / 260 rules of one rank matched by one request x 4 id styles, handed to the action builder in 8 orders). A header-filter value with a NUL byte in the extern C action.",
+ "C08": "Added in session 3: twin-tree interleavings - two trees differing only in ignore_case hold the same pattern and run the script insert, find, cache, find; all 70 interleavings x 27 patterns x {multi, unique}, each on a thread of its own; every find must equal the linear scan of its own tree (detects per-thread / process-wide memoisation keyed without the case mode). 'nested' set explored insert-only (every insertion order of every subset, depth 6 / 7), 'wide' set (a node with 11 children prefilled), 'case-folding' set (letters with more than two case forms). After round 5: a case-folding pattern set with a catch-all root ((?:[^/]+)\\.example) and non-ASCII cased letters in shared prefixes; result ORDER of a warmed tree against the tree it was cloned from.",
+ "C09": "Added in session 3: a non-ASCII parameter name and a parameter sorting after the marketing keys. Prefix-related parameter names (a / a2); every URL with <=1 parameter also as a rule that declares an unused marker. After round 5: '{', '}', back-tick and '|' in the path alphabet (genuine defect on the back-tick fixed in /repo); parameters \u00e9=1, z=9, a2=5, hsCta=t; a configured marketing name with an upper-case letter, added to requests by the marketing oracle; an unused marker declared by the rule; queries of 70 / 130 / 300 parameters.",
+ "C10": "Added in session 3: transformers that cannot be built (unknown type, replace / slice without options) inside chains and in a variable's chain; references directly followed by a name character (@a_s, @y9, @xs). A marker name with upper-case letters, expressions containing a quote / a named group of their own, an unrelated header before the one a pattern looks at. After round 5: sibling rules in the same tree whose patterns agree up to the beginning of the marker expression; expression types digits-star, four-digits, not-quote, named-group; references followed by name characters.",
+ "C11": "Added in session 3: built with the C05 builder; long lists (70 / 130 / 260 rules, limited orders). After round 5: long lists whose ids mix numeric and non-numeric strings.",
+ "C12": "Added in session 3: heavy-pattern pass (never-warmed vs warmed tree / router on expressions whose compiled program is large) and twin-router interleavings (two routers differing only in ignore_path_and_query_case, same marker rules, all 70 interleavings of insert / match / cache / match, each on its own thread, every answer compared with the router's own configuration). 'wide' tree configuration; warmed tree states are compared with the linear scan; r15 in the quick router set. After round 5: result order and elected route of a warmed clone against the router / tree it was cloned from; the case-folding pattern set with a catch-all root and non-ASCII prefixes in the tree half.",
+ "C13": "Added in session 3: second universe with prefix-related names (X, X-Y, x-y-z), filters with and without unit id / production target hash; Action::filter_headers also with a UnitTrace. Third universe: names of equal length differing in one non-letter byte by bit 5 (X~Y / X^Y). After round 5: operation names in other letter case (Add, REMOVE, Override, Replace ...) are unknown operations.",
+ "C14": "Added in session 3: hand-built zlib streams declaring windows of 2^9 / 2^12 / 2^14 bytes, a gzip member with FEXTRA / FNAME / FCOMMENT; filter lists replace_text and a buffering two-stage HTML list. Filter list with an HTML stage before replace_text. After round 5: a 1.2 MiB body made of one <style> token (more than 1 MiB held by the HTML stage between two calls).",
+ "C15": "Added in session 3: 2-4 sibling occurrences of the target for ALL three edits (found a genuine defect, fixed in /repo 586fa08); non-void self-closing fillers, raw-text fillers with white space in the end tag, the legacy script guard; two unparsable selectors. Size thresholds: the generated documents with one long run, exact expected output in one chunk; an upper-case twin of the element the selector looks for. After round 5: script fillers with a double-escaped section (<!-- <script> </script> -->), custom elements whose names start with a raw-text element name (<title-bar>, <style-guide>), unparsable selectors.",
+ "C16": "Added in session 3: run-length sweep - 23 constructs x 18 fillers x every run length 1..80 (quick) / 1..300 (thorough), in the document and in a raw-text context. Composite tokens reaching the deep script sub-states within the quick bound, byte order mark, <svg> / </svg>. After round 5: prefix + buffered() == input after EVERY token (and buffered() twice); raw() stable after every accessor of the token; composite script tokens, BOM, <title-bar>.",
  "C17": "Added in session 3: every probe is also traced as a request built with the DEFAULT configuration (the trace normalises it itself); marker paths sharing a plain upper-case prefix. Count thresholds: the many-rules pass with trace == match, final priority and last action step; IPv4-mapped client address.",
- "C18": "Added in session 3: header lists with undecodable entries (NULL name, NULL value, ISO-8859-1 bytes) between valid ones; a body filter that failed on an earlier chunk (declared gzip, body not gzip); allocation-free termination watchdog. add_proxy with a rejected string, header lists of 130 entries, released blocks quarantined while a sequence runs (a use after free inside the library is reported instead of crashing the explorer).",
- "C19": "Added in session 3: ignore_path_and_query_case with a lone upper-case pattern rule; independent verdict on every example of the final rule list (must-match example fails iff the live pipeline does not apply its rule, must-not-match example fails iff it does; example_count).",
+ "C18": "Added in session 3: header lists with undecodable entries (NULL name, NULL value, ISO-8859-1 bytes) between valid ones; a body filter that failed on an earlier chunk (declared gzip, body not gzip); allocation-free termination watchdog. add_proxy with a rejected string, header lists of 130 entries, released blocks quarantined while a sequence runs (a use after free inside the library is reported instead of crashing the explorer). After round 5: a callback-logger pass in a subprocess of its own (all sequences one call shorter than the bound, two receiver behaviours: keeps every message until the sequence is over and then reads and releases it / releases it inside the callback; a message that is no longer a live allocation when its receiver uses it, or an audit event, is a violation; a death of that subprocess is the violation log-message:process-died); payloads over 64 KiB (an 84 KiB action document of 400 small filters, header values of 65 535 / 65 536 / 100 000 bytes, a 70 KB URL - in every sequence one call shorter than the bound); an action document both sides refuse; a leak has to repeat in three further executions before it is reported.",
+ "C19": "Added in session 3: ignore_path_and_query_case with a lone upper-case pattern rule; independent verdict on every example of the final rule list (must-match example fails iff the live pipeline does not apply its rule, must-not-match example fails iff it does; example_count). After round 5: the project served on an IPv4 / IPv6 literal (rule targets, absolute examples and project_domains rewritten).",
 }
 COMMON = " Every unit of work runs under a termination watchdog (a call that does not return within 30 s is the violation does-not-terminate with a replay file) and with panics of the library caught (violation panic:<file:line>). A violation that fails inside the exploration but not when its case is executed alone is confirmed by a second complete exploration and reported as history-dependent (hidden shared state in the library)."
 for pid, c in CHECKS.items():
